@@ -194,7 +194,7 @@ func ruleDataMatrixEncoder(c *Ctx) {
 			for _, s := range appendSites(fn) {
 				if hdr.Dominates(s.call.Block()) {
 					n.Bind[dphi] = "cur"
-					c.expectCond(R5, "datamatrix.addPadding/while", s.call.Pos(), n.EdgeCond(hdr, hdr.Succs[0]), "len(cur) < cap")
+					c.expectCond(R5, "datamatrix.addPadding/while", s.call.Pos(), n.LoopCond(hdr), "len(cur) < cap")
 					v := s.elems[0]
 					if cv, ok := v.(*ssa.Convert); ok {
 						v = cv.X
@@ -403,19 +403,19 @@ func ruleDataMatrixEncoder(c *Ctx) {
 			call := enc[0]
 			// the block loop
 			var bh *ssa.BasicBlock
-			var bphi *ssa.Phi
+			var bphi ssa.Value // the block index inside the body (classic or range form)
 			for d := call.Block(); d != nil; d = d.Idom() {
-				if phi, init, ok := loopCounter(d); ok && init == 0 {
-					bh, bphi = d, phi
+				if idx, _, init, ok := loopIndex(d); ok && init == 0 {
+					bh, bphi = d, idx
 				}
 			}
 			if bh == nil {
 				c.Undecided(R7, "datamatrix.calcECC/block-loop", call.Pos(), "block loop not found")
 			} else {
 				n.Bind[bphi] = "b"
-				c.expectCond(R7, "datamatrix.calcECC/block-loop", bphi.Pos(), n.EdgeCond(bh, bh.Succs[0]), "b < size.BlockCount")
+				c.expectCond(R7, "datamatrix.calcECC/block-loop", bphi.Pos(), n.LoopCond(bh), "b < size.BlockCount")
 				mk, ok := call.Common().Args[1].(*ssa.MakeSlice)
-				c.Check(R7, "datamatrix.calcECC/buffer-fresh-per-block", call.Pos(), ok && bh.Succs[0].Dominates(mk.Block()), "buffer made inside the block loop", fmt.Sprintf("%v", ok && bh.Succs[0].Dominates(mk.Block())))
+				c.Check(R7, "datamatrix.calcECC/buffer-fresh-per-block", call.Pos(), ok && inLoopBody(bh, mk.Block()), "buffer made inside the block loop", fmt.Sprintf("%v", ok && inLoopBody(bh, mk.Block())))
 				if ok {
 					got := n.Norm(mk.Len).String()
 					c.Check(R7, "datamatrix.calcECC/buffer-len", mk.Pos(), got == "call:datamatrix.(*dmCodeSize).DataCodewordsForBlock(size,b)", "DataCodewordsForBlock(block)", got)
@@ -450,7 +450,7 @@ func ruleDataMatrixEncoder(c *Ctx) {
 				}
 				eachInstr(fn, func(b2 *ssa.BasicBlock, ins ssa.Instruction) {
 					st, ok := ins.(*ssa.Store)
-					if !ok || !bh.Succs[0].Dominates(b2) {
+					if !ok || !inLoopBody(bh, b2) {
 						return
 					}
 					dst, ok := st.Addr.(*ssa.IndexAddr)
@@ -482,7 +482,7 @@ func ruleDataMatrixEncoder(c *Ctx) {
 					n.env = append(n.env, env)
 					dBase, dSlope := split(n.Norm(dst.Index))
 					sBase, sSlope := split(n.Norm(src.Index))
-					cond := n.EdgeCond(h, h.Succs[0])
+					cond := n.LoopCond(h)
 					n.env = n.env[:len(n.env)-1]
 					one := pConst(1)
 					switch {
@@ -740,7 +740,7 @@ func ruleDataMatrixEncoder(c *Ctx) {
 			try := func(colPhi *ssa.Phi) bool {
 				n.Bind[colPhi] = "col"
 				defer delete(n.Bind, colPhi)
-				eq, _ := CondEquivalent(cOr(n.EdgeCond(hdr, hdr.Succs[0]), cAnd(cNot(n.EdgeCond(hdr, hdr.Succs[0])), n.ReachCond(fn, hdr.Succs[1], hdr.Succs[1]))), cTrue)
+				eq, _ := CondEquivalent(cOr(n.LoopCond(hdr), cAnd(cNot(n.LoopCond(hdr)), n.ReachCond(fn, hdr.Succs[1], hdr.Succs[1]))), cTrue)
 				_ = eq
 				body := hdr.Succs[0]
 				got := cOr(n.EdgeCond(hdr, body), cFalse)
